@@ -60,7 +60,7 @@ def config_case(draw, tier="quick", connect=True):
         off_items = [draw(item(common))]
     case = {"offerer": {"bundle": draw(st.sampled_from(list(["balanced", "max-compat", "max-bundle"]))), "always_dc": always, "items": off_items},
             "answerer": {"bundle": draw(st.sampled_from(["balanced", "max-compat", "max-bundle"])), "always_dc": False, "items": ans_items},
-            "followup": None, "connect": connect, "reorder": draw(st.sampled_from([None, None, None, "rtx-last", "reverse", "rotate"]))}
+            "followup": None, "connect": connect, "reorder": draw(st.sampled_from([None, None, None, "rtx-last", "reverse", "rotate", "fb-no-pli", "fb-no-nack", "fb-none", "fb-first"]))}
     if draw(st.booleans()):
         case["followup"] = {"offer_by": draw(st.integers(0, 1)), "add_to": draw(st.integers(0, 1)), "item": draw(item(common))}
     return case
@@ -71,9 +71,18 @@ def reorder_offer(text: str, mode: str) -> str:
     order (RTX entries after all real codecs / reversed / rotated).  Payload types, parameters and feedback are untouched."""
     d = SDP.SessionDescription.parse(text)
     for m in d.media:
-        if m.kind not in KINDS or len(m.rtp.codecs) < 2:
+        if m.kind not in KINDS or (len(m.rtp.codecs) < 2 and not mode.startswith("fb-")):
             continue
         codecs = list(m.rtp.codecs)
+        if mode.startswith("fb-"):
+            # ... or offering less RTCP feedback than aiortc does
+            for c in codecs:
+                keep = {"fb-no-pli": lambda f: (f.type, f.parameter) != ("nack", "pli"),
+                        "fb-no-nack": lambda f: (f.type, f.parameter) != ("nack", None),
+                        "fb-none": lambda f: False,
+                        "fb-first": lambda f: f is c.rtcpFeedback[0]}[mode]
+                c.rtcpFeedback = [f for f in c.rtcpFeedback if keep(f)]
+            continue
         if mode == "rtx-last":
             codecs = [c for c in codecs if not is_rtx(c)] + [c for c in codecs if is_rtx(c)]
         elif mode == "reverse":
@@ -241,7 +250,7 @@ class Scenario:
             if pc.signalingState != "stable":
                 self.fail("not-stable", f"pc {i} is in signaling state {pc.signalingState} after the exchange")
                 return False
-        bad = sdp_consistency(a.localDescription.sdp, b.localDescription.sdp)
+        bad = sdp_consistency(remote_offer.sdp, b.localDescription.sdp)  # the offer as the answerer saw it
         if bad:
             self.fail(bad[0], bad[1])
             return False
@@ -272,8 +281,9 @@ class Scenario:
             if not await self.negotiate(pcs, 0):
                 return
             leftovers = self.leftovers(pcs)
-            if case.get("connect", True) and not leftovers[0] and not leftovers[1]:
-                if not await self.check_connected(pcs, logs, made, "first exchange"):
+            if case.get("connect", True):
+                # with items the first exchange could not carry, what it did carry must work all the same
+                if not await self.check_connected(pcs, logs, made, "first exchange", partial=bool(leftovers[0] or leftovers[1])):
                     return
             fu = case.get("followup")
             if fu is None and (leftovers[0] or leftovers[1]):
@@ -311,16 +321,38 @@ class Scenario:
             out.append(n)
         return out
 
-    async def check_connected(self, pcs, logs, made, where: str) -> bool:
-        ok = await wait_for(lambda: all(pc.connectionState in ("connected", "failed", "closed") for pc in pcs), timeout=40)
-        states = [pc.connectionState for pc in pcs]
-        if states != ["connected", "connected"]:
-            detail = [[(t.state, t.transport.state) for t in pc._RTCPeerConnection__dtlsTransports] for pc in pcs]
-            self.fail("not-connected", f"after the {where}: connectionState {states} (dtls/ice states {detail})")
-            return False
+    async def check_connected(self, pcs, logs, made, where: str, partial: bool = False) -> bool:
+        if partial:
+            # some transceiver or the SCTP transport of one side is not negotiated yet and keeps its own, idle transport
+            # (so connectionState is not "connected"): look at the transports of what has been negotiated
+            def negotiated(pc) -> list:
+                out = [t.sender.transport for t in pc.getTransceivers()
+                       if t.mid is not None and not t.stopped and t.currentDirection in ("sendrecv", "sendonly", "recvonly")]
+                if pc.sctp is not None and pc.sctp.mid is not None:
+                    out.append(pc.sctp.transport)
+                return out
+
+            if not all(pc.sctp is not None and pc.sctp.mid is not None for pc in pcs) and not all(negotiated(pc) for pc in pcs):
+                return True  # nothing was negotiated on one of the sides
+            self.classes.add("partial-connect")
+            await wait_for(lambda: all(t.state in ("connected", "failed", "closed") for pc in pcs for t in negotiated(pc)), timeout=40)
+            states = [[t.state for t in negotiated(pc)] for pc in pcs]
+            if any(st_ != "connected" for sts in states for st_ in sts):
+                self.fail("not-connected", f"after the {where} (other items still to negotiate): DTLS transports of the negotiated "
+                                           f"transceivers / SCTP are {states}, connectionState {[pc.connectionState for pc in pcs]}")
+                return False
+        else:
+            ok = await wait_for(lambda: all(pc.connectionState in ("connected", "failed", "closed") for pc in pcs), timeout=40)
+            states = [pc.connectionState for pc in pcs]
+            if states != ["connected", "connected"]:
+                detail = [[(t.state, t.transport.state) for t in pc._RTCPeerConnection__dtlsTransports] for pc in pcs]
+                self.fail("not-connected", f"after the {where}: connectionState {states} (dtls/ice states {detail})")
+                return False
         # every negotiated data channel opens, is announced once and carries a message each way
         for side in (0, 1):
             for ch in made[side]["channels"]:
+                if partial and not all(pc.sctp is not None and pc.sctp.mid is not None for pc in pcs):
+                    continue
                 peer_log = logs[1 - side]
                 if not await wait_for(lambda: ch.readyState == "open" and any(c.id == ch.id for c in peer_log.channels), timeout=40):
                     self.fail("channel-not-open", f"after the {where}: channel {ch.label!r} created by pc {side} is {ch.readyState}, "
